@@ -201,4 +201,18 @@ theorem tie_angle_init (τ s e : Rat) :
     · simp [h1, h2, bind, Except.bind, pure, Except.pure, Except.map, CR.Py.assert]
   · simp [h1, bind, Except.bind, pure, Except.pure, Except.map, CR.Py.assert]
 
+/-- AngleInterval's own property setters on a fully constructed object (the CURRENT source) are the model's
+    `setStartAngle` / `setEndAngle`: orientation check first, then the crossing check; nothing else is touched. -/
+theorem tie_angle_setters (τ : Rat) (i : I) (x : Rat) :
+    Gen.AngleInterval_set_start τ (some i.lo, some i.hi) x
+      = (setStartAngle τ i x).map (fun j => (some j.lo, some j.hi)) ∧
+    Gen.AngleInterval_set_end τ (some i.lo, some i.hi) x
+      = (setEndAngle τ i x).map (fun j => (some j.lo, some j.hi)) := by
+  unfold Gen.AngleInterval_set_start Gen.AngleInterval_set_end setStartAngle setEndAngle
+  constructor
+  · by_cases h0 : validOrientation τ x = true <;> by_cases h : x ≤ i.hi <;>
+      simp [h0, h, bind, Except.bind, pure, Except.pure, Except.map, CR.Py.assert]
+  · by_cases h0 : validOrientation τ x = true <;> by_cases h : i.lo ≤ x <;>
+      simp [h0, h, bind, Except.bind, pure, Except.pure, Except.map, CR.Py.assert, ge_iff_le]
+
 end CR.Iv
